@@ -52,6 +52,25 @@ type Slice struct {
 	off, len, cap int
 }
 
+// LSlice is a non-byte slice whose length is symbolic; cells are materialised on demand.
+type LSlice struct {
+	b    *Backing
+	slen *term.T
+	et   types.Type
+}
+
+func (l LSlice) materialize(n int) {
+	if l.b.cells == nil {
+		l.b.cells = make([]Value, 0, 512)
+	}
+	if n > 512 {
+		panic(pathEnd{kind: endUnsupported, msg: "more than 512 cells of a symbolic-length slice touched"})
+	}
+	for len(l.b.cells) < n {
+		l.b.cells = append(l.b.cells, zeroValue(l.et))
+	}
+}
+
 type BSlice struct {
 	arr           *ByteArr
 	off, len, cap *term.T
